@@ -153,6 +153,14 @@ def run(prog, rep):
                               f"colour-mixing primitive `{st.short()}` in {f.path}, which is reachable from eval_node: the result for one colour can depend on which other colours exist")
             elif k == "quant":
                 vars_ = st.args[-1] if st.args else ()
+                if not state_vars_only(vars_):
+                    # the list may be built by a private helper of the low-level module: the same site with those helpers inlined
+                    try:
+                        same = [x for x in ieng.summary(f).all_sites() if classify(x) == "quant" and x.where() == st.where() and x.args]
+                    except Exception:
+                        same = []
+                    if len(same) == 1:
+                        vars_ = same[0].args[-1]
                 handed = None if state_vars_only(vars_) else handed_state_vars(prog, edges, ieng, f, vars_)
                 for g, x, good, v in handed or [(f, st, state_vars_only(vars_), vars_)]:
                     via = "" if g is f else f" (through {f.name})"
